@@ -351,3 +351,18 @@ def _(h):
     n = d.norm()
     h.eq('real norm', n[0], 1, tol=1e-6)
     h.eq('dual norm', n[1], 0, tol=1e-6)
+
+
+@claim('isequal-double-cover')
+def _(h):
+    """isequal: q and -q are the same unit quaternion (unitq=True) but different quaternions (unitq=False)"""
+    q = h.vec('q', 4, -10, 10)
+    h.assume(nsq(q) >= 1e-2)
+    h.true('q == q', base.isequal(q, q))
+    h.true('q == -q as unit quaternions', base.isequal(q, -q, unitq=True))
+    h.true('q != -q as quaternions', not base.isequal(q, -q))
+    p = h.vec('p', 4, -10, 10)
+    d = nsq(p - q)
+    h.assume(d >= 1e-6)
+    h.assume(nsq(p + q) >= 1e-6)
+    h.true('different values are not equal', not base.isequal(p, q, unitq=True))
